@@ -190,7 +190,7 @@ Proof.
     apply In_abstract in Ha. destruct Ha as [[_ Hn]|Ha]; [contradiction | eapply removed_not_added; eauto].
   - destruct (sd_items sd) as [|i its] eqn:Ei.
     + pose proof (items_nil_added_nil _ _ H Ei) as Hadd. cbn [sd_items]. rewrite <- Eask.
-      rewrite filter_In, memn_In, !In_diff, In_abstract, Hadd. cbn. rewrite Ei. cbn.
+      rewrite filter_In, memn_In, !In_diff, In_abstract, Hadd. cbn.
       split; [intros [[[_ _] Hnr] Hr]; left; auto | intros [[Hr Hnr]|[]]; tauto].
     + apply load_full_items. auto.
 Qed.
@@ -201,14 +201,17 @@ Proof. intros. unfold abstract at 1. cbn. rewrite diff_nil_r, app_nil_r. reflexi
 
 Lemma flush_Inv : forall rows sd, Inv rows sd -> Inv (flush_rows rows sd) (flush_sd sd).
 Proof.
-  intros rows sd H. constructor; cbn; try apply H; try constructor.
+  intros rows sd H. constructor; cbn [flush_sd sd_items sd_added sd_removed sd_full sd_absent sd_count].
   - apply NoDup_abstract; auto.
+  - apply H.
+  - constructor.
+  - constructor.
   - intros x Hx. rewrite flush_abstract. apply (i_sound _ _ H). auto.
   - intros x [].
   - intros x [].
   - intros x [].
   - intros Hf x Hx. rewrite flush_abstract in Hx. apply (i_full _ _ H Hf). auto.
-  - intros a Ha. discriminate.
+  - intros ab Hab. discriminate.
   - intros n Hn. rewrite flush_abstract. apply (i_count _ _ H). auto.
 Qed.
 
@@ -218,9 +221,9 @@ Lemma autoflush_spec : forall rows sd, Inv rows sd ->
   sd_added (snd rs) = [] /\ sd_removed (snd rs) = [] /\ sd_items (snd rs) = sd_items sd /\ sd_full (snd rs) = sd_full sd /\
   sd_count (snd rs) = sd_count sd.
 Proof.
-  intros rows sd H. unfold autoflush. destruct (pending sd) eqn:E; cbn.
-  - split; [apply flush_Inv; auto|]. split; [apply flush_abstract|]. repeat split.
-  - unfold pending in E. destruct (sd_added sd) eqn:Ea; destruct (sd_removed sd) eqn:Er; try discriminate. repeat split; auto.
+  intros rows sd H. unfold autoflush. destruct (pending sd) eqn:E; cbn [fst snd].
+  - split; [apply flush_Inv; auto|]. split; [apply flush_abstract|]. cbn. auto 10.
+  - unfold pending in E. destruct (sd_added sd) eqn:Ea; destruct (sd_removed sd) eqn:Er; try discriminate. auto 10.
 Qed.
 
 Lemma abstract_clean : forall rows sd, sd_added sd = [] -> sd_removed sd = [] -> abstract rows sd = rows.
@@ -239,7 +242,7 @@ Proof.
   - assert (Hs : same_set (sd_items sd) (abstract rows sd)) by (intros x; split; [apply (i_sound _ _ H) | apply (i_full _ _ H Ef)]).
     split; auto. split; [apply same_elems_length; auto; [apply (i_items _ _ H) | apply NoDup_abstract; auto]|]. split; auto.
   - destruct (autoflush rows sd) as [rows1 sd1] eqn:Ea.
-    pose proof (autoflush_spec rows sd H) as Hs. rewrite Ea in Hs. cbn in Hs. destruct Hs as (Hi1 & Hab & _).
+    pose proof (autoflush_spec rows sd H) as Hs. rewrite Ea in Hs. cbn [fst snd] in Hs. destruct Hs as (Hi1 & Hab & _).
     cbn. pose proof (load_full_Inv _ _ Hi1) as Hi2.
     assert (Hs : same_set (sd_items (load_full rows1 sd1)) (abstract rows sd)) by (intros x; rewrite <- Hab; apply load_full_items; auto).
     split; auto. split.
@@ -255,9 +258,8 @@ Proof.
   intros rows sd H. unfold do_count. destruct (sd_count sd) as [n|] eqn:Ec; cbn.
   - split; [apply (i_count _ _ H); auto | auto].
   - split; [symmetry; apply length_abstract; auto|]. split; auto.
-    constructor; cbn; try apply H.
-    + intros a Ha. apply (i_absent _ _ H a Ha).
-    + intros n Hn. inversion Hn; subst. symmetry. apply length_abstract. auto.
+    constructor; cbn [sd_items sd_added sd_removed sd_full sd_absent sd_count]; try apply H.
+    intros n Hn. inversion Hn; subst. unfold abstract; cbn [sd_added sd_removed]. symmetry. apply (length_abstract _ _ H).
 Qed.
 
 (* is_empty(): first is the row the LIMIT 1 query happens to return *)
@@ -280,30 +282,308 @@ Proof.
       * cbn. split; [|split; [auto | intros x; tauto]].
         rewrite Nat.eqb_eq. rewrite (i_count _ _ H n Ec). split; [apply length_zero_iff_nil | intros ->; reflexivity].
       * destruct (autoflush rows sd) as [rows1 sd1] eqn:Ea.
-        pose proof (autoflush_spec rows sd H) as Hs. rewrite Ea in Hs. cbn in Hs.
+        pose proof (autoflush_spec rows sd H) as Hs. rewrite Ea in Hs. cbn [fst snd] in Hs.
         destruct Hs as (Hi1 & Hab & Hadd & Hrem & Hit & Hfu & Hco).
         pose proof (abstract_clean rows1 sd1 Hadd Hrem) as Hclean.
-        destruct (first rows1) as [r|] eqn:Efi; cbn.
+        destruct (first rows1) as [r|] eqn:Efi; cbn [fst snd].
         -- assert (Hr : In r rows1) by (apply Hf1; auto).
            split; [split; [discriminate | intros Hx; rewrite <- Hab, Hclean in Hx; rewrite Hx in Hr; destruct Hr]|].
-           split; [|unfold abstract; cbn; rewrite <- Hab; unfold abstract; intros x; tauto].
-           constructor; cbn; try apply Hi1.
+           split; [|intros x; rewrite <- Hab; unfold abstract; cbn [sd_added sd_removed]; tauto].
+           constructor; cbn [sd_items sd_added sd_removed sd_full sd_absent sd_count].
+           ++ apply Hi1.
            ++ constructor; [intros [] | constructor].
-           ++ intros x [<-|[]]. unfold abstract; cbn. rewrite Hadd, Hrem, diff_nil_r, app_nil_r. auto.
+           ++ apply Hi1.
+           ++ apply Hi1.
+           ++ intros x [<-|[]]. unfold abstract; cbn [sd_added sd_removed]. rewrite Hadd, Hrem, diff_nil_r, app_nil_r. auto.
            ++ intros x Hx. rewrite Hadd in Hx. destruct Hx.
+           ++ apply Hi1.
+           ++ apply Hi1.
            ++ rewrite Hfu, Ef. discriminate.
-           ++ intros a Ha x Hx. right. destruct (i_absent _ _ Hi1 a Ha x Hx) as [Hc|Hc]; [rewrite Hit, Ei in Hc; destruct Hc | exact Hc].
+           ++ intros ab Habs x Hx. right. destruct (i_absent _ _ Hi1 ab Habs x Hx) as [Hc|Hc]; [rewrite Hit, Ei in Hc; destruct Hc | exact Hc].
            ++ intros n Hn. apply (i_count _ _ Hi1 n Hn).
         -- assert (Hr : rows1 = []) by (apply Hf2; auto).
            split; [split; [intros _; rewrite <- Hab, Hclean; auto | auto]|].
-           split; [|unfold abstract; cbn; rewrite <- Hab; unfold abstract; intros x; tauto].
-           constructor; cbn; try apply Hi1.
+           split; [|intros x; rewrite <- Hab; unfold abstract; cbn [sd_added sd_removed]; tauto].
+           constructor; cbn [sd_items sd_added sd_removed sd_full sd_absent sd_count].
+           ++ apply Hi1.
            ++ constructor.
+           ++ apply Hi1.
+           ++ apply Hi1.
            ++ intros x [].
            ++ intros x Hx. rewrite Hadd in Hx. destruct Hx.
-           ++ intros _ x Hx. unfold abstract in Hx; cbn in Hx. rewrite Hadd, Hrem, diff_nil_r, app_nil_r, Hr in Hx. destruct Hx.
-           ++ intros a Ha. discriminate.
-           ++ intros n Hn. inversion Hn; subst. unfold abstract; cbn. rewrite Hadd, Hrem, diff_nil_r, app_nil_r, Hr. reflexivity.
+           ++ apply Hi1.
+           ++ apply Hi1.
+           ++ intros _ x Hx. unfold abstract in Hx; cbn [sd_added sd_removed] in Hx. rewrite Hadd, Hrem, diff_nil_r, app_nil_r in Hx. try rewrite (Hf2 _ Efi) in Hx. destruct Hx.
+           ++ intros ab Habs. discriminate.
+           ++ intros n Hn. inversion Hn; subst. unfold abstract; cbn [sd_added sd_removed]. rewrite Hadd, Hrem, diff_nil_r, app_nil_r. try rewrite (Hf2 _ Efi). reflexivity.
     + cbn. split; [|split; [auto | intros x; tauto]]. split; [discriminate|].
       intros Hx. exfalso. assert (In i (abstract rows sd)) by (apply (i_sound _ _ H); rewrite Ei; left; auto). rewrite Hx in H0. destruct H0.
 Qed.
+
+(* ------------------------------------------------------------------ __contains__ *)
+Lemma contains_tail_sound : forall rows sd x, Inv rows sd -> ~ In x (sd_items sd) ->
+  forall order b, contains_local order sd x = Some b -> b = false /\ ~ In x (abstract rows sd).
+Proof.
+  intros rows sd x H Hni. induction order as [|c r IH]; intros b Hc; [discriminate|].
+  assert (Hm : memn x (sd_items sd) = false) by (apply memn_false; auto).
+  destruct c; cbn in Hc.
+  - rewrite Hm in Hc. auto.
+  - destruct (sd_full sd) eqn:Ef; [|auto]. inversion Hc; subst. split; auto. intros Ha. apply Hni. apply (i_full _ _ H Ef). auto.
+  - destruct (sd_full sd) eqn:Ef; [|auto]. rewrite Hm in Hc. inversion Hc; subst. split; auto. intros Ha. apply Hni. apply (i_full _ _ H Ef). auto.
+  - destruct (sd_absent sd) as [a|] eqn:Ea; [|auto]. destruct (memn x a) eqn:Em; [|auto].
+    inversion Hc; subst. split; auto. apply memn_In in Em. destruct (i_absent _ _ H a Ea x Em); [contradiction | auto].
+Qed.
+
+Lemma contains_local_sound : forall rows sd x, Inv rows sd ->
+  forall order b, safe_order order = true -> contains_local order sd x = Some b -> (b = true <-> In x (abstract rows sd)).
+Proof.
+  intros rows sd x H. induction order as [|c r IH]; intros b Hs Hc; [discriminate|].
+  destruct c; cbn in Hs; try discriminate; cbn in Hc.
+  - destruct (memn x (sd_items sd)) eqn:Em.
+    + inversion Hc; subst. apply memn_In in Em. split; auto. intros _. apply (i_sound _ _ H). auto.
+    + apply memn_false in Em. destruct (contains_tail_sound _ _ _ H Em _ _ Hc) as [-> Hn]. split; [discriminate | contradiction].
+  - destruct (sd_full sd) eqn:Ef; [|auto]. inversion Hc; subst. rewrite memn_In.
+    split; [apply (i_sound _ _ H) | apply (i_full _ _ H Ef)].
+Qed.
+
+Lemma do_contains_spec : forall x rows sd, Inv rows sd ->
+  let r := do_contains x rows sd in
+  (fst r = true <-> In x (abstract rows sd)) /\ Inv (fst (snd r)) (snd (snd r)) /\
+  abstract (fst (snd r)) (snd (snd r)) = abstract rows sd.
+Proof.
+  intros x rows sd H. unfold do_contains.
+  destruct (contains_local contains_checks sd x) as [b|] eqn:Ec.
+  - cbn. split; [apply (contains_local_sound _ _ _ H _ _ source_order_safe Ec) | auto].
+  - assert (Hpre : exists rows1 sd1,
+        (match diff (diff [x] (sd_items sd)) (sd_removed sd) with [] => (rows, sd) | _ :: _ => autoflush rows sd end) = (rows1, sd1) /\
+        Inv rows1 sd1 /\ abstract rows1 sd1 = abstract rows sd).
+    { destruct (diff (diff [x] (sd_items sd)) (sd_removed sd)); [exists rows, sd; auto|].
+      destruct (autoflush rows sd) as [r1 s1] eqn:Ea. exists r1, s1. pose proof (autoflush_spec rows sd H) as Hs. rewrite Ea in Hs.
+      cbn [fst snd] in Hs. tauto. }
+    destruct Hpre as (rows1 & sd1 & -> & Hi1 & Hab1).
+    assert (Hnd : NoDup [x]) by (constructor; [intros [] | constructor]).
+    pose proof (load_for_Inv rows1 [x] sd1 Hnd Hi1) as Hi2.
+    pose proof (load_for_abstract rows1 [x] sd1) as Hab2.
+    pose proof (load_for_member rows1 x sd1 Hi1) as Hmem.
+    destruct (memn x (sd_items (load_for rows1 [x] sd1))) eqn:Em; cbn [fst snd].
+    + apply memn_In in Em. split; [split; auto; intros _; rewrite <- Hab1; apply Hmem; auto|]. split; auto. congruence.
+    + apply memn_false in Em.
+      assert (Hna : ~ In x (abstract rows1 (load_for rows1 [x] sd1))) by (rewrite Hab2; intros Ha; apply Em, Hmem; auto).
+      split; [split; [discriminate | intros Ha; exfalso; apply Em, Hmem; rewrite Hab1; auto]|].
+      split; [|unfold abstract in *; cbn [sd_added sd_removed]; congruence].
+      constructor; cbn [sd_items sd_added sd_removed sd_full sd_absent sd_count]; try apply Hi2.
+      intros ab Hab y Hy. inversion Hab; subst. destruct Hy as [<-|Hy].
+      * right. exact Hna.
+      * destruct (sd_absent (load_for rows1 [x] sd1)) as [a|] eqn:Ea; [apply (i_absent _ _ Hi2 a Ea y Hy) | destruct Hy].
+Qed.
+
+(* ------------------------------------------------------------------ add / remove *)
+Lemma NoDup_abstract_raw : forall rows sd, NoDup rows -> NoDup (sd_added sd) -> (forall x, In x (sd_added sd) -> ~ In x rows) ->
+  NoDup (abstract rows sd).
+Proof.
+  intros rows sd Hr Ha Hn. unfold abstract. apply nodup_app; auto; [apply NoDup_diff; auto|].
+  intros x Hx Hx2. apply In_diff in Hx. apply (Hn x Hx2). tauto.
+Qed.
+
+Lemma sd_add_spec : forall rows sd x, Inv rows sd -> ~ In x (sd_items sd) -> ~ In x (abstract rows sd) ->
+  Inv rows (sd_add sd x) /\ (forall y, In y (abstract rows (sd_add sd x)) <-> In y (abstract rows sd) \/ y = x).
+Proof.
+  intros rows sd x H Hni Hna.
+  assert (Hnadd : ~ In x (sd_added sd)) by (intros Hc; apply Hni; apply (i_added_items _ _ H); auto).
+  assert (Habs : forall y, In y (abstract rows (sd_add sd x)) <-> In y (abstract rows sd) \/ y = x).
+  { intros y. rewrite !In_abstract. cbn [sd_add sd_added sd_removed]. rewrite In_without.
+    destruct (memn x (sd_removed sd)) eqn:Er.
+    - apply memn_In in Er. pose proof (i_removed_rows _ _ H x Er) as Hxr.
+      destruct (Nat.eq_dec y x) as [->|Hne]; [tauto|]. tauto.
+    - apply memn_false in Er. cbn. destruct (Nat.eq_dec y x) as [->|Hne]; [tauto|]. split.
+      + intros [[Hr Hn]|[He|Ha]]; [left; left; split; auto; intros Hc; apply Hn; auto | congruence | auto].
+      + intros [[[Hr Hn]|Ha]|He]; [left; split; auto; intros [Hc _]; auto | auto | congruence]. }
+  split; [|exact Habs].
+  assert (Hnew : forall y, In y (sd_added (sd_add sd x)) -> ~ In y rows).
+  { intros y Hy. cbn in Hy. destruct (memn x (sd_removed sd)) eqn:Er; [apply (i_added_new _ _ H); auto|].
+    destruct Hy as [<-|Hy]; [|apply (i_added_new _ _ H); auto].
+    apply memn_false in Er. intros Hr. apply Hna. apply In_abstract. left; auto. }
+  assert (Hnda : NoDup (sd_added (sd_add sd x))).
+  { cbn. destruct (memn x (sd_removed sd)); [apply H|]. constructor; auto. apply H. }
+  constructor.
+  - apply H.
+  - cbn. constructor; auto. apply H.
+  - exact Hnda.
+  - cbn. apply NoDup_without. apply H.
+  - intros y Hy. apply Habs. cbn in Hy. destruct Hy as [<-|Hy]; [right; auto | left; apply (i_sound _ _ H); auto].
+  - intros y Hy. cbn in Hy. cbn [sd_add sd_items]. destruct (memn x (sd_removed sd)); [right; apply (i_added_items _ _ H); auto|].
+    destruct Hy as [<-|Hy]; [left; auto | right; apply (i_added_items _ _ H); auto].
+  - exact Hnew.
+  - intros y Hy. cbn in Hy. apply In_without in Hy. apply (i_removed_rows _ _ H). tauto.
+  - intros Hf y Hy. apply Habs in Hy. cbn [sd_add sd_items]. destruct Hy as [Hy| ->]; [right; apply (i_full _ _ H Hf); auto | left; auto].
+  - intros ab Hab y Hy. cbn in Hab. destruct (i_absent _ _ H ab Hab y Hy) as [Hc|Hc]; [left; right; auto|].
+    destruct (Nat.eq_dec y x) as [->|Hne]; [left; left; auto | right; intros Ha; apply Habs in Ha; destruct Ha; auto].
+  - intros n Hn. cbn in Hn. destruct (sd_count sd) as [m|] eqn:Ec; [|discriminate]. inversion Hn; subst.
+    rewrite (i_count _ _ H m Ec).
+    change (S (length (abstract rows sd))) with (length (x :: abstract rows sd)). symmetry.
+    apply same_elems_length.
+    + apply NoDup_abstract_raw; auto. apply H.
+    + constructor; auto. apply NoDup_abstract; auto.
+    + intros y. rewrite Habs. cbn. split; intros [A|B]; auto.
+Qed.
+
+Lemma do_add_spec : forall x rows sd, Inv rows sd ->
+  Inv rows (do_add x rows sd) /\ (forall y, In y (abstract rows (do_add x rows sd)) <-> In y (abstract rows sd) \/ y = x).
+Proof.
+  intros x rows sd H. unfold do_add.
+  destruct (memn x (sd_items sd)) eqn:Em.
+  - apply memn_In in Em. pose proof (i_sound _ _ H x Em) as Hx.
+    destruct (sd_full sd); [split; auto; intros y; split; [auto | intros [A| ->]; auto]|].
+    split; [apply load_full_Inv; auto|]. rewrite load_full_abstract. intros y; split; [auto | intros [A| ->]; auto].
+  - apply memn_false in Em.
+    assert (Hnd : NoDup [x]) by (constructor; [intros [] | constructor]).
+    assert (Hsd1 : exists sd1, (if sd_full sd then sd else load_for rows [x] sd) = sd1 /\ Inv rows sd1 /\
+                               abstract rows sd1 = abstract rows sd /\ (In x (sd_items sd1) <-> In x (abstract rows sd))).
+    { destruct (sd_full sd) eqn:Ef.
+      - exists sd. split; auto. split; auto. split; auto. split; [apply (i_sound _ _ H) | apply (i_full _ _ H Ef)].
+      - exists (load_for rows [x] sd). split; auto. split; [apply load_for_Inv; auto|]. split; [apply load_for_abstract|].
+        apply load_for_member; auto. }
+    destruct Hsd1 as (sd1 & -> & Hi1 & Hab1 & Hmem).
+    destruct (memn x (sd_items sd1)) eqn:Em1.
+    + apply memn_In in Em1. split; auto. rewrite Hab1. intros y; split; [auto | intros [A| ->]; [auto | apply Hmem; auto]].
+    + apply memn_false in Em1.
+      assert (Hna : ~ In x (abstract rows sd1)) by (rewrite Hab1; intros Ha; apply Em1, Hmem; auto).
+      destruct (sd_add_spec rows sd1 x Hi1 Em1 Hna) as [Hi2 Habs]. split; auto. intros y. rewrite Habs, Hab1. tauto.
+Qed.
+
+Lemma sd_remove_spec : forall rows sd x, Inv rows sd -> In x (sd_items sd) ->
+  Inv rows (sd_remove sd x) /\ (forall y, In y (abstract rows (sd_remove sd x)) <-> In y (abstract rows sd) /\ y <> x).
+Proof.
+  intros rows sd x H Hi.
+  pose proof (i_sound _ _ H x Hi) as Hxa.
+  assert (Hnr : ~ In x (sd_removed sd)) by (intros Hc; eapply removed_not_items; eauto).
+  assert (Habs : forall y, In y (abstract rows (sd_remove sd x)) <-> In y (abstract rows sd) /\ y <> x).
+  { intros y. rewrite !In_abstract. cbn [sd_remove sd_added sd_removed]. rewrite In_without.
+    destruct (memn x (sd_added sd)) eqn:Ea.
+    - apply memn_In in Ea. pose proof (i_added_new _ _ H x Ea) as Hxr.
+      destruct (Nat.eq_dec y x) as [->|Hne]; [tauto|]. tauto.
+    - apply memn_false in Ea. cbn. destruct (Nat.eq_dec y x) as [->|Hne]; [tauto|]. split.
+      + intros [[Hr Hn]|[Ha _]]; [split; auto; left; split; auto | split; auto].
+      + intros [[[Hr Hn]|Ha] _]; [left; split; auto; intros [Hc|Hc]; [congruence | auto] | right; auto]. }
+  split; [|exact Habs].
+  assert (Hxrows : ~ In x (sd_added sd) -> In x rows).
+  { intros Hna. apply In_abstract in Hxa. destruct Hxa as [[Hr _]|Ha]; [auto | contradiction]. }
+  constructor.
+  - apply H.
+  - cbn. apply NoDup_without. apply H.
+  - cbn. apply NoDup_without. apply H.
+  - cbn. destruct (memn x (sd_added sd)); [apply H|]. constructor; auto. apply H.
+  - intros y Hy. cbn in Hy. apply In_without in Hy. apply Habs. split; [apply (i_sound _ _ H); tauto | tauto].
+  - intros y Hy. cbn in Hy. apply In_without in Hy. cbn [sd_remove sd_items]. apply In_without. split; [apply (i_added_items _ _ H); tauto | tauto].
+  - intros y Hy. cbn in Hy. apply In_without in Hy. apply (i_added_new _ _ H). tauto.
+  - intros y Hy. cbn in Hy. destruct (memn x (sd_added sd)) eqn:Ea; [apply (i_removed_rows _ _ H); auto|].
+    apply memn_false in Ea. destruct Hy as [<-|Hy]; [auto | apply (i_removed_rows _ _ H); auto].
+  - intros Hf y Hy. apply Habs in Hy. cbn [sd_remove sd_items]. apply In_without. split; [apply (i_full _ _ H Hf); tauto | tauto].
+  - intros ab Hab y Hy. cbn in Hab. cbn [sd_remove sd_items]. destruct (i_absent _ _ H ab Hab y Hy) as [Hc|Hc].
+    + destruct (Nat.eq_dec y x) as [->|Hne]; [right; intros Ha; apply Habs in Ha; tauto | left; apply In_without; auto].
+    + right. intros Ha. apply Habs in Ha. tauto.
+  - intros n Hn. cbn in Hn. destruct (sd_count sd) as [m|] eqn:Ec; [|discriminate]. inversion Hn; subst.
+    rewrite (i_count _ _ H m Ec).
+    assert (Hl : length (abstract rows sd) = length (x :: abstract rows (sd_remove sd x))).
+    { apply same_elems_length.
+      - apply NoDup_abstract; auto.
+      - constructor; [intros Hc; apply Habs in Hc; tauto|].
+        apply NoDup_abstract_raw; [apply H | cbn; apply NoDup_without; apply H |].
+        intros y Hy. cbn in Hy. apply In_without in Hy. apply (i_added_new _ _ H). tauto.
+      - intros y. cbn. rewrite Habs. destruct (Nat.eq_dec y x) as [->|Hne]; [tauto|]. split; [intros A; right; auto | intros [A|[A _]]; [congruence | auto]]. }
+    rewrite Hl. reflexivity.
+Qed.
+
+Lemma do_remove_spec : forall x rows sd, Inv rows sd ->
+  Inv rows (do_remove x rows sd) /\ (forall y, In y (abstract rows (do_remove x rows sd)) <-> In y (abstract rows sd) /\ y <> x).
+Proof.
+  intros x rows sd H. unfold do_remove.
+  destruct (memn x (sd_removed sd)) eqn:Er.
+  - apply memn_In in Er. split; auto. intros y. split; [|tauto]. intros Hy. split; auto. intros ->.
+    apply In_abstract in Hy. destruct Hy as [[_ Hn]|Ha]; [contradiction | eapply removed_not_added; eauto].
+  - assert (Hnd : NoDup [x]) by (constructor; [intros [] | constructor]).
+    assert (Hsd1 : exists sd1, (if sd_full sd then sd else load_for rows [x] sd) = sd1 /\ Inv rows sd1 /\
+                               abstract rows sd1 = abstract rows sd /\ (In x (sd_items sd1) <-> In x (abstract rows sd))).
+    { destruct (sd_full sd) eqn:Ef.
+      - exists sd. split; auto. split; auto. split; auto. split; [apply (i_sound _ _ H) | apply (i_full _ _ H Ef)].
+      - exists (load_for rows [x] sd). split; auto. split; [apply load_for_Inv; auto|]. split; [apply load_for_abstract|].
+        apply load_for_member; auto. }
+    destruct Hsd1 as (sd1 & -> & Hi1 & Hab1 & Hmem).
+    destruct (memn x (sd_items sd1)) eqn:Em1.
+    + apply memn_In in Em1. destruct (sd_remove_spec rows sd1 x Hi1 Em1) as [Hi2 Habs]. split; auto. intros y. rewrite Habs, Hab1. tauto.
+    + apply memn_false in Em1. split; auto. rewrite Hab1. intros y. split; [|tauto]. intros Hy. split; auto. intros ->. apply Em1, Hmem; auto.
+Qed.
+
+(* ------------------------------------------------------------------ the boolean invariant of the correspondence run implies Inv *)
+Lemma nodupb_NoDup : forall l, nodupb l = true -> NoDup l.
+Proof.
+  induction l as [|x l IH]; cbn; intros H; [constructor|].
+  apply andb_true_iff in H as [H1 H2]. apply negb_true_iff, memn_false in H1. constructor; auto.
+Qed.
+Lemma subsetb_incl : forall a b, subsetb a b = true -> forall x, In x a -> In x b.
+Proof. intros a b H x Hx. unfold subsetb in H. rewrite forallb_forall in H. apply memn_In. auto. Qed.
+Lemma disjointb_spec : forall a b, disjointb a b = true -> forall x, In x a -> ~ In x b.
+Proof. intros a b H x Hx. unfold disjointb in H. rewrite forallb_forall in H. apply memn_false. apply negb_true_iff. auto. Qed.
+
+Lemma inv_b_Inv : forall rows sd, inv_b rows sd = true -> Inv rows sd.
+Proof.
+  intros rows sd H. unfold inv_b in H. repeat (apply andb_true_iff in H; destruct H as [H ?]).
+  constructor.
+  - apply nodupb_NoDup; auto.
+  - apply nodupb_NoDup; auto.
+  - apply nodupb_NoDup; auto.
+  - apply nodupb_NoDup; auto.
+  - apply subsetb_incl; auto.
+  - apply subsetb_incl; auto.
+  - apply disjointb_spec; auto.
+  - apply subsetb_incl; auto.
+  - intros Hf. rewrite Hf in H2. cbn in H2. apply subsetb_incl; auto.
+  - intros a Ha x Hx. rewrite Ha in H1. rewrite forallb_forall in H1. specialize (H1 x Hx).
+    apply orb_true_iff in H1. destruct H1 as [A|A]; [left; apply memn_In; auto | right; apply memn_false; apply negb_true_iff; auto].
+  - intros n Hn. rewrite Hn in H0. apply Nat.eqb_eq. auto.
+Qed.
+
+(* ------------------------------------------------------------------ path independence *)
+Lemma bool_iff_eq : forall (a b : bool) (P : Prop), (a = true <-> P) -> (b = true <-> P) -> a = b.
+Proof. intros [] [] P H1 H2; auto; [symmetry; apply H2, H1; auto | apply H1, H2; auto]. Qed.
+
+Lemma same_set_nil : forall a b, same_set a b -> (a = [] <-> b = []).
+Proof.
+  intros a b H. split; intros ->.
+  - destruct b as [|y b]; auto. exfalso. apply (H y). left; auto.
+  - destruct a as [|y a]; auto. exfalso. apply (H y). left; auto.
+Qed.
+
+(* two consistent views of the same abstract collection (reached through any loading paths, flushed or not) answer alike *)
+Lemma observations_path_independent : forall first rows1 sd1 rows2 sd2 x,
+  (forall l r, first l = Some r -> In r l) -> (forall l, first l = None -> l = []) ->
+  Inv rows1 sd1 -> Inv rows2 sd2 -> same_set (abstract rows1 sd1) (abstract rows2 sd2) ->
+  same_set (fst (do_copy rows1 sd1)) (fst (do_copy rows2 sd2)) /\
+  length (fst (do_copy rows1 sd1)) = length (fst (do_copy rows2 sd2)) /\
+  fst (do_count rows1 sd1) = fst (do_count rows2 sd2) /\
+  fst (do_contains x rows1 sd1) = fst (do_contains x rows2 sd2) /\
+  fst (do_is_empty first rows1 sd1) = fst (do_is_empty first rows2 sd2).
+Proof.
+  intros first rows1 sd1 rows2 sd2 x Hf1 Hf2 H1 H2 Hs.
+  assert (Hlen : length (abstract rows1 sd1) = length (abstract rows2 sd2))
+    by (apply same_elems_length; auto; apply NoDup_abstract; auto).
+  destruct (do_copy_spec _ _ H1) as (Hc1 & Hl1 & _). destruct (do_copy_spec _ _ H2) as (Hc2 & Hl2 & _).
+  destruct (do_count_spec _ _ H1) as (Hn1 & _). destruct (do_count_spec _ _ H2) as (Hn2 & _).
+  destruct (do_contains_spec x _ _ H1) as (Hm1 & _). destruct (do_contains_spec x _ _ H2) as (Hm2 & _).
+  destruct (do_is_empty_spec first _ _ Hf1 Hf2 H1) as (He1 & _). destruct (do_is_empty_spec first _ _ Hf1 Hf2 H2) as (He2 & _).
+  split; [intros y; rewrite (Hc1 y), (Hc2 y); apply Hs|].
+  split; [congruence|]. split; [congruence|]. split.
+  - eapply bool_iff_eq; [exact Hm1 | rewrite Hm2; symmetry; apply Hs].
+  - eapply bool_iff_eq; [exact He1 | rewrite He2; symmetry; apply same_set_nil; auto].
+Qed.
+
+Lemma load_full_spec : forall rows sd, Inv rows sd ->
+  Inv rows (load_full rows sd) /\ abstract rows (load_full rows sd) = abstract rows sd /\
+  (forall x, In x (sd_items (load_full rows sd)) <-> In x (abstract rows sd)).
+Proof. intros rows sd H. split; [apply load_full_Inv; auto|]. split; [reflexivity | apply load_full_items; auto]. Qed.
+Lemma load_items_spec : forall rows xs sd, NoDup xs -> Inv rows sd ->
+  Inv rows (load_for rows xs sd) /\ abstract rows (load_for rows xs sd) = abstract rows sd.
+Proof. intros. split; [apply load_for_Inv; auto | apply load_for_abstract]. Qed.
+Lemma flush_spec : forall rows sd, Inv rows sd ->
+  Inv (flush_rows rows sd) (flush_sd sd) /\ abstract (flush_rows rows sd) (flush_sd sd) = abstract rows sd.
+Proof. intros. split; [apply flush_Inv; auto | apply flush_abstract]. Qed.
